@@ -2,13 +2,14 @@
     Property theorems only; each closed by [exact] of a lemma from Proofs/VCodeFacts.v.
     Panic freedom, time and memory of the real process are run-time facts: these
     theorems cover the arithmetic and guard logic of the modelled fragments
-    (Model/VCode.v); the classes of Model/KnownC17.v are genuine defects that remain.
+    (Model/VCode.v); the class of Model/KnownC17.v (quadratic-path) is a genuine defect that remains.
     Repaired in /repo and therefore stated unconditionally here: blank id (b116ae5),
-    version gaps (719e6a5, f842f41), wide padding (d5a9e2d). *)
+    version gaps (719e6a5, f842f41), wide padding (d5a9e2d), empty PrettyPrintSet (547c92e),
+    manifest entry without content paths (7c90d82), schemeless colon values handed to uriparse (389bfd0). *)
 From Rocfl Require Import Base.Bytes Model.VersionNum Model.VCode Model.KnownC17 Proofs.VCodeFacts.
 Open Scope N_scope.
 
-(** ** vnums_cost_linear: cost of validate_version_nums (serde.rs:1321-1391, after the repairs
+(** ** vnums_cost_linear: cost of validate_version_nums (serde.rs:1321-1322, 1338-1405, after the repairs
     719e6a5 and f842f41) *)
 
 (** the loop, in both build modes and for EVERY list of u32 version numbers (any order, any
@@ -102,7 +103,7 @@ Theorem C17_visit_no_panic : forall items, fst (visit items) <> PPanicked.
 Proof. exact visit_no_panic. Qed.
 Print Assumptions C17_visit_no_panic.
 
-(** ** get_version_guarded, content_paths_guarded: mod.rs:607-641, 1534-1707 *)
+(** ** get_version_guarded, content_paths_guarded: mod.rs:607-641, 1534-1711 *)
 
 (** [found] = ANY inventories that parse without error in the version directories below the
     head, whatever their heads are (a copy of v1's inventory in v2, of the root inventory in v1 ...):
@@ -132,43 +133,141 @@ Theorem C17_get_version_needs_head_check :
 Proof. exact get_version_needs_head_check. Qed.
 Print Assumptions C17_get_version_needs_head_check.
 
+(** since commit 7c90d82 (mod.rs:1657-1661, [unwrap_or(&no_paths)]) there is no unwrap of a
+    content_paths result left: for ALL inventories, whatever their manifests declare *)
 Theorem C17_content_paths_guarded : forall dbg root dirs,
-  good root -> Forall (fun d => good (snd d)) dirs ->
   cross_check dbg root dirs <> XPanic SContentPaths.
 Proof. exact cross_check_content_paths_guarded. Qed.
 Print Assumptions C17_content_paths_guarded.
 
-(** refuted without the classifier: E050 holds (closed) and the unwrap still fails *)
-Theorem C17_known_empty_manifest_entry_refuted :
-  cross_check false w_root [(1, w_v1)] = XPanic SContentPaths /\
-  closed w_root /\ c17_empty_manifest_entry w_root = true /\ contiguous w_root /\ dir_ok w_root (1, w_v1).
-Proof. exact empty_manifest_entry_panics. Qed.
-Print Assumptions C17_known_empty_manifest_entry_refuted.
+(** the loop body of validate_state_consistent (mod.rs:1629-1699) returns for every entry of
+    every state of every pair of inventories, in both build modes, with at most one E066 *)
+Theorem C17_state_entry_total : forall dbg cur cmp inv st cd e,
+  exists n, entry_check dbg cur cmp inv st cd e = XOk n /\ n <= 1.
+Proof. exact entry_check_total. Qed.
+Print Assumptions C17_state_entry_total.
 
-(** ** pretty_print_total: types.rs:1350-1361 *)
+(** a digest the manifest declares with an empty array (no entry in the manifest map, bimap.rs:88-91)
+    is compared as the empty set: equal to another empty set, otherwise reported as E066 *)
+Theorem C17_missing_manifest_entry_is_empty_set : forall dbg cur cmp inv st p cd d,
+  lookup p st = Some d -> content_paths cmp cd = None ->
+  entry_check dbg cur cmp inv st false (p, cd) =
+  XOk (if is_nil (paths_or_empty (content_paths inv d)) then 0 else 1).
+Proof. exact entry_check_missing_entry. Qed.
+Print Assumptions C17_missing_manifest_entry_is_empty_set.
 
-Theorem C17_pretty_print_total : forall dbg len,
-  dbg = false \/ len <> 0 -> pps_panics dbg len = false.
+Theorem C17_missing_manifest_entry_other_side : forall dbg cur cmp inv st p cd d cps,
+  lookup p st = Some d -> content_paths cmp cd = Some cps -> content_paths inv d = None ->
+  entry_check dbg cur cmp inv st false (p, cd) =
+  XOk (if nlen cps =? 1 then 1 else if is_nil (filter (fun cp => fst cp <=? cur) cps) then 0 else 1).
+Proof. exact entry_check_missing_entry_other_side. Qed.
+Print Assumptions C17_missing_manifest_entry_other_side.
+
+(** the formerly known input (E050 holds - [closed] - and the manifest declares a digest with []):
+    a verdict now, in both build modes *)
+Theorem C17_empty_manifest_entry_verdict :
+  cross_check true w_root [(1, w_v1)] = XOk 0 /\ cross_check false w_root [(1, w_v1)] = XOk 0 /\
+  cross_check true w_root [(1, w_v1b)] = XOk 1 /\ cross_check false w_root [(1, w_v1b)] = XOk 1 /\
+  closed w_root /\ contiguous w_root /\ dir_ok w_root (1, w_v1) /\ dir_ok w_root (1, w_v1b).
+Proof. exact empty_manifest_entry_verdict. Qed.
+Print Assumptions C17_empty_manifest_entry_verdict.
+
+(** historical note, NOT the current code: the loop body before 7c90d82
+    ([entry_check_before_fix], two unwraps) panicked on that input *)
+Theorem C17_history_content_paths_before_fix :
+  entry_check_before_fix false 1 w_root w_v1 [(1, 20); (2, 21)] false (2, 11) = XPanic SContentPaths /\
+  entry_check_before_fix true 1 w_root w_v1b [(1, 20); (2, 21)] false (2, 11) = XPanic SContentPaths /\
+  entry_check false 1 w_root w_v1 [(1, 20); (2, 21)] false (2, 11) = XOk 0 /\
+  entry_check true 1 w_root w_v1b [(1, 20); (2, 21)] false (2, 11) = XOk 1.
+Proof. exact history_entry_check_before_fix_unwrap_none. Qed.
+Print Assumptions C17_history_content_paths_before_fix.
+
+(** ** pretty_print_total: types.rs:1350-1362 (after commit 547c92e, [saturating_sub]) *)
+
+(** every set size, both build modes *)
+Theorem C17_pretty_print_total : forall dbg len, pps_panics dbg len = false.
 Proof. exact pps_total. Qed.
 Print Assumptions C17_pretty_print_total.
 
-Theorem C17_pretty_print_release : forall root dirs,
-  cross_check false root dirs <> XPanic SPrettyPrint.
-Proof. exact cross_check_pps_release. Qed.
-Print Assumptions C17_pretty_print_release.
+(** and the text has len - 1 separators (none for the empty set) *)
+Theorem C17_pretty_print_exact : forall dbg len, pps_display dbg len = Ok (len - 1).
+Proof. exact pps_display_exact. Qed.
+Print Assumptions C17_pretty_print_exact.
 
 Theorem C17_pretty_print_guarded : forall dbg root dirs,
-  c17_future_content root = false -> Forall (fun d => c17_future_content (snd d) = false) dirs ->
   cross_check dbg root dirs <> XPanic SPrettyPrint.
-Proof. exact cross_check_pps_guarded. Qed.
+Proof. exact cross_check_pps_total. Qed.
 Print Assumptions C17_pretty_print_guarded.
 
-Theorem C17_known_empty_set_reaches_pretty_print :
-  cross_check true w2_root [(1, w2_v1)] = XPanic SPrettyPrint /\
-  cross_check false w2_root [(1, w2_v1)] = XOk 1 /\
-  c17_empty_pps true w2_root = true /\ c17_empty_manifest_entry w2_root = false.
-Proof. exact empty_set_reaches_pretty_print. Qed.
-Print Assumptions C17_known_empty_set_reaches_pretty_print.
+(** the formerly known input (the filtered set of mod.rs:1677-1685 is empty): one E066 in both build modes *)
+Theorem C17_empty_set_is_printed :
+  cross_check true w2_root [(1, w2_v1)] = XOk 1 /\ cross_check false w2_root [(1, w2_v1)] = XOk 1 /\
+  pps_display true 0 = Ok 0 /\ pps_display false 0 = Ok 0 /\ pps_display true 3 = Ok 2.
+Proof. exact empty_set_is_printed. Qed.
+Print Assumptions C17_empty_set_is_printed.
+
+(** historical note, NOT the current code: [len() - 1] before 547c92e *)
+Theorem C17_history_pretty_print_before_fix :
+  pps_panics_before_fix true 0 = true /\ pps_display_before_fix false 0 = Ok 0 /\
+  (forall dbg len, len <> 0 -> pps_display_before_fix dbg len = Ok (len - 1)) /\
+  entry_check_before_fix true 1 w2_root w2_v1 [(1, 20)] false (1, 10) = XPanic SPrettyPrint /\
+  entry_check_before_fix false 1 w2_root w2_v1 [(1, 20)] false (1, 10) = XOk 1 /\
+  entry_check true 1 w2_root w2_v1 [(1, 20)] false (1, 10) = XOk 1.
+Proof. exact history_pps_before_fix. Qed.
+Print Assumptions C17_history_pretty_print_before_fix.
+
+(** ** the cross-inventory checks return a verdict *)
+
+(** with the three panic sites settled (get_version guarded by the head check, the other two
+    gone) and the fuel of the descending loop sufficient: for ANY inventories found in the version
+    directories below the head the checks end with a number of E066 errors, in both build modes *)
+Theorem C17_cross_check_verdict : forall dbg root found,
+  contiguous root -> Forall (found_ok root) found -> desc_from (i_head root) found ->
+  exists n, object_cross_check dbg root found = XOk n.
+Proof. exact object_cross_check_verdict. Qed.
+Print Assumptions C17_cross_check_verdict.
+
+Theorem C17_cross_check_verdict_loop : forall dbg root dirs,
+  contiguous root -> Forall (dir_ok root) dirs -> desc_from (i_head root) dirs ->
+  exists n, cross_check dbg root dirs = XOk n.
+Proof. exact cross_check_verdict. Qed.
+Print Assumptions C17_cross_check_verdict_loop.
+
+(** ** is_uri_total: serde.rs:1324-1336 (commit 389bfd0), call sites serde.rs:191 and 1220 *)
+
+(** [uri_ok] = what uriparse's URI::try_from(..).is_ok() answers where it returns: ANY total
+    function.  is_uri never panics; it is the scheme test AND the parser's answer *)
+Theorem C17_is_uri_total : forall (uri_ok : bytes -> bool) s,
+  is_uri uri_ok s = Ok (uri_guard s && uri_ok s) /\ is_uri uri_ok s <> Panic.
+Proof. intros uri_ok s. split; [exact (is_uri_exact uri_ok s)|exact (is_uri_total uri_ok s)]. Qed.
+Print Assumptions C17_is_uri_total.
+
+(** every call of the parser is made on a value outside the set on which it panics *)
+Theorem C17_is_uri_calls_safe : forall (uri_ok : bytes -> bool) s,
+  Forall (fun a => uri_try_from_panics a = false) (is_uri_calls uri_ok s).
+Proof. exact is_uri_calls_safe. Qed.
+Print Assumptions C17_is_uri_calls_safe.
+
+(** a value without a valid scheme is "not a URI" (W005 / W009 follow) and the parser is not called *)
+Theorem C17_is_uri_schemeless_not_parsed : forall (uri_ok : bytes -> bool) s,
+  uri_guard s = false -> is_uri uri_ok s = Ok false /\ is_uri_calls uri_ok s = [].
+Proof. exact is_uri_schemeless. Qed.
+Print Assumptions C17_is_uri_schemeless_not_parsed.
+
+(** the whole formerly known class (":", "1:x", "%3A:" ...) is such a value; the unguarded call
+    of that time ([is_uri_before_fix], historical) panicked on it *)
+Theorem C17_is_uri_former_class : forall (uri_ok : bytes -> bool) s,
+  uri_try_from_panics s = true ->
+  is_uri uri_ok s = Ok false /\ is_uri_calls uri_ok s = [] /\ is_uri_before_fix uri_ok s = Panic.
+Proof. exact is_uri_former_class. Qed.
+Print Assumptions C17_is_uri_former_class.
+
+(** the guard changes no answer of a parser that accepts only values with an RFC 3986 scheme *)
+Theorem C17_is_uri_agrees_with_parser : forall (uri_ok : bytes -> bool) s,
+  (uri_ok s = true -> uri_guard s = true) -> uri_try_from_panics s = false ->
+  is_uri uri_ok s = is_uri_before_fix uri_ok s.
+Proof. exact is_uri_agrees_with_parser. Qed.
+Print Assumptions C17_is_uri_agrees_with_parser.
 
 (** ** content_paths_iter_terminates: mod.rs:2106-2127 *)
 
@@ -251,8 +350,8 @@ Example C17_display_wide :
 Proof. exact vdisplay_wide_example. Qed.
 
 Example C17_nonvacuous_cross :
-  exists root v1, good root /\ good v1 /\ contiguous root /\ dir_ok root (1, v1) /\
-    c17_future_content root = false /\ cross_check true root [(1, v1)] = XOk 0.
+  exists root v1, closed root /\ closed v1 /\ contiguous root /\ dir_ok root (1, v1) /\
+    cross_check true root [(1, v1)] = XOk 0.
 Proof. exact cross_check_nonvacuous. Qed.
 
 Example C17_nonvacuous_iter :
@@ -264,9 +363,13 @@ Example C17_nonvacuous_cpi :
   cpi_walk vnum_eq_rust true 10 (mkV 5 3) (fun n => n =? 2) = Ok (Some (mkV 2 3)).
 Proof. exact cpi_example. Qed.
 
-(** the class found in the third-party URI parser (classified by the search only) *)
-Example C17_known_colon_uri_members :
-  c17_colon_uri (b ":") = true /\ c17_colon_uri (b "1:x") = true /\ c17_colon_uri (b "%3A:") = true /\
-  c17_colon_uri (b "urn:x") = false /\ c17_colon_uri (b "//h:1/p") = false /\ c17_colon_uri (b "a/b:c") = false /\
-  c17_colon_uri (b "") = false.
-Proof. exact colon_uri_examples. Qed.
+(** the scheme test of is_uri and the panic set of the third-party parser on the former members *)
+Example C17_uri_guard_members :
+  uri_guard (b ":") = false /\ uri_guard (b "1:x") = false /\ uri_guard (b "%3A:") = false /\
+  uri_guard (b "-:x") = false /\ uri_guard (b "::") = false /\ uri_guard (b "") = false /\
+  uri_guard (b "no colon") = false /\ uri_guard (b "a/b:c") = false /\
+  uri_guard (b "urn:x") = true /\ uri_guard (b "a+.-1:x") = true /\ uri_guard (b "mailto:a@b") = true /\
+  uri_try_from_panics (b ":") = true /\ uri_try_from_panics (b "1:x") = true /\
+  uri_try_from_panics (b "%3A:") = true /\ uri_try_from_panics (b "urn:x") = false /\
+  uri_try_from_panics (b "//h:1/p") = false /\ uri_try_from_panics (b "a/b:c") = false.
+Proof. exact uri_guard_examples. Qed.
